@@ -172,7 +172,7 @@ func (r *recorder) probes() {
 // Broker while a conflicting call runs); the others are random.
 func RunRegistryHistory(id int, seed int64) *RHistory {
 	rng := rand.New(rand.NewSource(seed))
-	b, _ := eventlogger.NewBroker()
+	b, _ := hn.NewBroker()
 	r := &recorder{b: b}
 	mk := func(n string, rr *rand.Rand, slow bool) *lazy {
 		l := &lazy{Node: hn.Node{ID: n, Kind: histKinds[n], Beh: hn.Pass}}
@@ -303,7 +303,7 @@ func (n *slowReopen) Reopen() error {
 func ReopenOverlap() []Mismatch {
 	var mms []Mismatch
 	for _, failing := range []bool{false, true} {
-		b, _ := eventlogger.NewBroker()
+		b, _ := hn.NewBroker()
 		f := &slowReopen{Node: hn.Node{ID: "f", Kind: eventlogger.NodeTypeFilter, Beh: hn.Pass}}
 		m := &slowReopen{Node: hn.Node{ID: "m", Kind: eventlogger.NodeTypeFormatter, Beh: hn.Pass}}
 		s := &slowReopen{Node: hn.Node{ID: "s", Kind: eventlogger.NodeTypeSink, Beh: hn.Pass}, block: true, entered: make(chan struct{}, 1), release: make(chan struct{})}
